@@ -427,6 +427,13 @@ def check(rep, tier, seed, driver):
             cases.append(c)
     for c in cases:
         rep.count("mode_" + c.get("mode", "fixed"))
+        if c["spec"]["dtype"] == "f" and c["spec"]["kind"].startswith("cvt"):
+            # a float32 CVTArchive routes a float64 list/array in float64 but stores float32 measures; re-querying the stored measures
+            # computes the distances in float32, where a far-out-of-range point can tie between two centroids (rounding, not a defect):
+            # float32 CVT cases therefore submit float32 arrays, so that routing and re-querying use the same arithmetic
+            for o in c["ops"]:
+                if o[0] in ("add", "add_single") and len(o) > 2:
+                    o[2] = "nd"
 
     def compare(spec, ops):
         prng = random.Random(spec["seed"] ^ 0x5EED)
